@@ -12,6 +12,8 @@ from .. import vlib
 from ..vlib import f2bits
 
 LEAN_TARGETS = ["SkaModel.Props.C07"]
+# theorems about, and the executable of, `_n_to_assign_annotators` translated from the current source on every run
+GEN_TARGETS = ["SkaModel.Props.AnnotGen", "skaannotgendriver"]
 LEVEL = "proof"
 RULE = (
     "cases: SingleAnnotatorWrapper(inner).query / IntervalEstimationThreshold.query on random label matrices "
@@ -400,6 +402,12 @@ def run_wrapper(prob, inner_name, alarm_s=ALARM_S, short_alarm=True):
                 pass
         r = real_nas(batch_size, A, s_indices, pref_n_annotators)
         spy["nas"] = np.array(r).copy()
+        try:
+            s_arr = np.asarray(s_indices).astype(int).ravel()
+            spy["nas_args"] = dict(b=int(batch_size), A=(np.asarray(A) != 0).copy(), s=s_arr.copy(),
+                                   pref=np.broadcast_to(np.asarray(pref_n_annotators).astype(int), s_arr.shape).copy())
+        except Exception:  # noqa: BLE001
+            spy.pop("nas_args", None)
         return r
 
     w._n_to_assign_annotators = nas
@@ -714,6 +722,8 @@ def wrapper_case(ctx, lines, expect, prob, inner_name, alarm_s=ALARM_S, short_al
             f"ok b {qa['batch_size']} " + canon_map_A(mapping, A, m) + " pref " + " ".join(str(int(p)) for p in qa["pref"])
             + " nas " + " ".join(str(int(x)) for x in spy["nas"]) + " | " + canon_pairs(res["Q"]) + " | " + canon_rows(res["U"])
         )
+        if "nas_args" in spy:
+            GEN_ASSIGN.append((spy["nas_args"], [int(x) for x in spy["nas"]], case))
     else:
         impl = st
     lines.append(line)
@@ -803,7 +813,98 @@ def transform_lines(ctx, lines, expect, prob):
             ctx.violate(f"C07/MultiAnnotatorPoolQueryStrategy._transform_cand_annot/{bad[0]}", bad[1], dict(kind="transform", prob=prob, inner=None))
 
 
+GEN_ASSIGN = []     # (captured arguments, result) of every real `_n_to_assign_annotators` call of this run
+
+
+def generate(ctx):
+    from ..translate import pyannot
+
+    pyannot.generate(ctx)
+
+
+def gen_assign_correspond(ctx):
+    """`_n_to_assign_annotators` on the arguments the real calls of this run received, plus direct calls of the real static method on
+    random matrices (all-False rows, saturated batches): compared with the hand-written `nToAssign` (`ma_assign`) and, when its
+    theorems check, with the function translated from the current source (`Gen/AnnotGen.lean`, `g_ma_assign`).  Arguments on which
+    the implementation deviates are leads for the failing-input search (`search`)."""
+    import os
+
+    from skactiveml.pool.multiannotator import SingleAnnotatorWrapper
+
+    annot_exe = vlib.WRAPGENDRIVER.replace("skawrapgendriver", "skaannotgendriver")
+    rng = ctx.rng
+    jobs = list(GEN_ASSIGN)
+    del GEN_ASSIGN[:]
+    for _ in range(300 if not ctx.thorough else 3000):
+        r, c = rng.randint(1, 6), rng.randint(1, 4)
+        A = np.array([[rng.random() < rng.choice([0.0, 0.3, 0.7, 1.0]) for _ in range(c)] for _ in range(r)], dtype=bool)
+        k = rng.randint(1, r)
+        s = np.array(rng.sample(range(r), k))
+        pref = np.array([rng.randint(1, c + 1) for _ in range(k)]) if rng.random() < 0.5 else np.full(k, rng.randint(1, c + 1))
+        b = rng.randint(1, int(A.sum()) + 3)
+        old = signal.signal(signal.SIGALRM, _on_alarm)
+        signal.alarm(SHORT_ALARM_S)
+        try:
+            res = [int(x) for x in SingleAnnotatorWrapper._n_to_assign_annotators(b, A, s, pref)]
+        except Timeout:
+            res = None
+        except Exception as e:  # noqa: BLE001
+            res = f"raised {type(e).__name__}"
+        finally:
+            signal.alarm(0)
+            signal.signal(signal.SIGALRM, old)
+        jobs.append((dict(b=b, A=A, s=s, pref=pref), res, dict(kind="direct")))
+        ctx.count("assign_direct_calls")
+    hand, gen, expect = [], [], []
+    for a, res, case in jobs:
+        A = a["A"]
+        fuel = int(A.sum()) + 1
+        nmax = A.sum(axis=1)[a["s"]]
+        tail = f" {len(a['pref'])} " + " ".join(str(int(x)) for x in a["pref"]) + f" {fuel}"
+        hand.append(f"ma_assign {a['b']} {len(nmax)} " + " ".join(str(int(x)) for x in nmax) + tail)
+        gen.append(f"g_ma_assign {a['b']} {A.shape[0]} {A.shape[1]} " + " ".join(str(int(x)) for x in A.ravel())
+                   + f" {len(a['s'])} " + " ".join(str(int(x)) for x in a["s"]) + tail)
+        expect.append("err non-termination" if res is None else (res if isinstance(res, str) else "ok " + " ".join(map(str, res))))
+        ctx.count("assign_cases")
+        ctx.count("assign_saturated" if nmax.sum() < a["b"] else "assign_fillable")
+    leads = []
+    outs = vlib.run_driver([" ".join(l.split()) for l in hand])
+    for (a, res, case), line, out, impl in zip(jobs, hand, outs, expect):
+        if out.split() != impl.split():
+            ctx.disagree("SkaModel.Core.MultiAnnot.nToAssign vs SingleAnnotatorWrapper._n_to_assign_annotators",
+                         dict(kind=case.get("kind"), line=line[:600]), out[:300], impl[:300])
+            leads.append(a)
+    ctx.assign_leads = getattr(ctx, "assign_leads", []) + leads
+    if getattr(ctx, "gen_ok", False) and os.path.exists(annot_exe):
+        outs = vlib.run_driver([" ".join(l.split()) for l in gen], exe=annot_exe)
+        for line, out, impl in zip(gen, outs, expect):
+            ctx.count("generated_assign_cases")
+            if out.split() != impl.split():
+                ctx.disagree("SkaModel.Gen.AnnotGen (translated from the current source) vs SingleAnnotatorWrapper._n_to_assign_annotators",
+                             dict(line=line[:600]), out[:300], impl[:300])
+
+
+def lead_problems(ctx, rng):
+    """Query problems built from the argument tuples on which `_n_to_assign_annotators` deviated: availability = the missing-label
+    pattern of y, a scalar / array `n_annotators_per_sample`, the batch size of the lead and its neighbours."""
+    probs = []
+    for a in getattr(ctx, "assign_leads", [])[:40]:
+        A = np.asarray(a["A"], dtype=bool)
+        r, c = A.shape
+        if r < 2 or not A.any():
+            continue
+        for b in sorted({int(a["b"]), max(1, int(a["b"]) - 1), int(A.sum()), int(A.sum()) + 1}):
+            y = [[(None if A[i][j] else (i + j) % 2) for j in range(c)] for i in range(r)]
+            X = [[rng.randint(-8, 8) / 4.0, rng.randint(-8, 8) / 4.0] for _ in range(r)]
+            pref = [int(x) for x in a["pref"]]
+            naps = pref[0] if len(set(pref)) == 1 else pref
+            probs.append(dict(X=X, y=y, cmode="none", amode="none", candidates=None, annotators=None, int_y=False, batch_size=b,
+                              naps=naps, A_perf=None, seed=rng.randrange(2**31 - 1)))
+    return probs
+
+
 def compare(ctx, lines, expect):
+    gen_assign_correspond(ctx)
     outs = vlib.run_driver(lines)
     for line, out, (impl, case) in zip(lines, outs, expect):
         if case["kind"] == "transform":
@@ -927,6 +1028,13 @@ def search(ctx):
     batch sizes near the number of available pairs."""
     rng = ctx.rng
     lines, expect = [], []
+    # leads first: queries built from the arguments on which `_n_to_assign_annotators` deviated from the model
+    for prob in lead_problems(ctx, rng):
+        ctx.count("search_lead_problems")
+        for inner in ("RandomSampling", "UncertaintySampling"):
+            wrapper_case(ctx, lines, expect, prob, inner)
+        if any("non-termination" not in v["key"] for v in ctx.violations):
+            return
     budget = 400 if not ctx.thorough else 2500
     n_timeouts = 0
     for i in range(budget):
